@@ -75,7 +75,9 @@ Proof. exact (fun sid l t ts => task_cas gen_shapes sid l t ts gen_good). Qed.
 (* ======================================================================================== Part B *)
 (* [reachable gen_shapes sid progs d0 g]: g is the state after SOME schedule (any list of (worker, event) pairs,
    any length) of the workers [progs] (any number, any variant / phase mode / modification / retry budget) started
-   on database d0.  [good_start]: ids are unique, the stage exists, new task ids are not used by other stages. *)
+   on database d0; all of them work on stage [sid].  [good_start]: stage ids and task ids are unique, the stage exists,
+   new task ids are not used by other stages' tasks, no worker uses a corrupted (poisoned) snapshot — i.e. snapshots come
+   from retrieve_stage and modifications keep ids and versions, which is all the engine ever does. *)
 
 (* B1. linearizable, no lost update: the committed view of the stage (status, payload, task statuses) equals the
    modifications of the commit log applied in commit order to the initial view; the version counts the commits;
